@@ -288,6 +288,9 @@ def use_calls(rng, ids, bulk=True, single=True, reads=True, edits=False, drop=No
         if rng.random() < 0.5:
             calls.append(create(b, "used-again"))
             calls.append(["insert_many", b, events(rng, 2)])
+    if reads:            # the last thing the program did with that store: it read every bucket
+        calls.append(["buckets"])
+        calls += [["get_events", b, -1] for b in order]
     return calls
 
 
